@@ -1,4 +1,5 @@
 import RedisVerif.Props.C13
+import RedisVerif.Props.C13Hist
 
 /-!
 # C13 — tombstone GC where the code DOES establish `GcSafe`: the full pass
@@ -173,6 +174,30 @@ theorem compaction_preserves_visible_full_pass_current (F : Oracle) (hF : NoRead
   unfold compact
   rw [current_compact_is_repaired]
   exact compaction_preserves_visible_full_pass F hF cfg sz w rid hinv hc hfull
+
+/-- the entry point of the compaction worker (`compact_if_needed`: the `max_segments` threshold, then
+    `compact`) — every threshold, every cutoff, a pass that takes every listed segment -/
+theorem compact_if_needed_preserves_visible_full_pass (F : Oracle) (hF : NoReadCorruption F) (cfg : CompactCfg)
+    (maxSegs sz : Nat) (w : World) (rid : Nat) (hinv : StoreInv w.store) (hc : Coherent (content w.store))
+    (hfull : FullPass w.store cfg) :
+    (recState (compactIfNeeded F cfg maxSegs sz w).1.store rid).map visible = (recState w.store rid).map visible := by
+  unfold compactIfNeeded compactIfNeededWith
+  have hs := needsCompaction_store F maxSegs w
+  cases h : needsCompaction F maxSegs w with
+  | mk w1 ob =>
+    rw [h] at hs
+    simp only at hs
+    cases ob with
+    | none => simp only [hs]
+    | some b =>
+      cases b with
+      | false => simp only [hs]
+      | true =>
+        simp only
+        have := compaction_preserves_visible_full_pass_current F hF cfg sz w1 rid (by rw [hs]; exact hinv)
+          (by rw [hs]; exact hc) (by unfold FullPass at hfull ⊢; rw [hs]; exact hfull)
+        unfold compact at this
+        rw [this, hs]
 
 /-! ## both conjuncts of `FullPass` are needed; non-vacuity -/
 
